@@ -1619,7 +1619,11 @@ async fn emit_event(
     buffer: &Arc<Mutex<Vec<Event>>>,
     event_log: &EventLog,
 ) {
+    #[cfg(feature = "verif")]
+    rip_kernel::verif::yield_async("session_emit:before_publish").await;
     let _ = sender.send(event.clone());
+    #[cfg(feature = "verif")]
+    rip_kernel::verif::yield_async("session_emit:after_publish").await;
     let mut guard = buffer.lock().await;
     guard.push(event.clone());
     let _ = event_log.append(&event);
